@@ -2,6 +2,7 @@
   C18 helper lemmas (core Lean only).
 -/
 import NutsModel.C18.Policy
+import NutsModel.C18.Cache
 
 namespace Nuts.C18
 open Nuts
@@ -1378,5 +1379,156 @@ theorem roundtrip_parts (name : Bytes) (port : Option Bytes) (segs : List Bytes)
       have := parseDID_web _ hidok hidne
       rw [joinWith_cons_cons] at this ⊢
       simpa [List.append_assoc] using this
+
+/-! ### the shared HTTP cache: the index is injective -/
+
+theorem lower_of_isLower : ∀ s : Bytes, s.all isLower = true → lower s = s
+  | [], _ => rfl
+  | x :: xs, h => by
+    simp only [List.all_cons, Bool.and_eq_true] at h
+    have hx : isUpper x = false := by
+      simp only [isLower, Bool.and_eq_true, decide_eq_true_eq] at h
+      simp [isUpper]; omega
+    simp [lower, toLowerB, hx]
+    exact lower_of_isLower xs h.2
+
+/-- a separator that occurs in neither prefix splits uniquely -/
+theorem sep_uniq (c : Nat) {a a' b b' : Bytes} (h : a ++ c :: b = a' ++ c :: b') (ha : c ∉ a) (ha' : c ∉ a') : a = a' ∧ b = b' := by
+  have e := prefix_align c a a' b b' h ha ha'
+  subst e
+  exact ⟨rfl, by simpa using h⟩
+
+/-- an optional `c`-introduced suffix after `c`-free prefixes -/
+theorem opt_suffix_inj (c : Nat) {a a' x x' : Bytes}
+    (h : a ++ (if x = [] then [] else c :: x) = a' ++ (if x' = [] then [] else c :: x')) (ha : c ∉ a) (ha' : c ∉ a') :
+    a = a' ∧ x = x' := by
+  by_cases hx : x = [] <;> by_cases hx' : x' = []
+  · subst hx hx'; simpa using h
+  · subst hx; simp only [if_true, hx', if_false, List.append_nil] at h
+    exact absurd (h ▸ (by simp : c ∈ a' ++ c :: x')) ha
+  · subst hx'; simp only [if_true, hx, if_false, List.append_nil] at h
+    exact absurd (h.symm ▸ (by simp : c ∈ a ++ c :: x)) ha'
+  · simp only [hx, hx', if_false] at h
+    exact sep_uniq c h ha ha'
+
+/-- an optional `c`-terminated prefix before `c`-free remainders -/
+theorem opt_prefix_inj (c : Nat) {x x' b b' : Bytes}
+    (h : (if x = [] then [] else x ++ [c]) ++ b = (if x' = [] then [] else x' ++ [c]) ++ b')
+    (hx : c ∉ x) (hx' : c ∉ x') (hb : c ∉ b) (hb' : c ∉ b') : x = x' ∧ b = b' := by
+  by_cases e : x = [] <;> by_cases e' : x' = []
+  · subst e e'; simpa using h
+  · subst e; simp only [if_true, e', if_false, List.nil_append, List.append_assoc, List.singleton_append] at h
+    exact absurd (h ▸ (by simp : c ∈ x' ++ c :: b')) hb
+  · subst e'; simp only [if_true, e, if_false, List.nil_append, List.append_assoc, List.singleton_append] at h
+    exact absurd (h.symm ▸ (by simp : c ∈ x ++ c :: b)) hb'
+  · simp only [e, e', if_false, List.append_assoc, List.singleton_append] at h
+    exact sep_uniq c h hx hx'
+
+theorem cacheKey_inj (u v : CUrl) (hu : u.wf = true) (hv : v.wf = true) (h : cacheKey u = cacheKey v) : u = v := by
+  obtain ⟨s1, u1, h1, p1, q1, f1⟩ := u
+  obtain ⟨s2, u2, h2, p2, q2, f2⟩ := v
+  simp only [CUrl.wf, Bool.and_eq_true, List.all_eq_true, decide_eq_true_eq, ne_eq] at hu hv
+  obtain ⟨⟨⟨⟨⟨hs1, hu1⟩, hh1⟩, hp01⟩, hp1⟩, hq1⟩ := hu
+  obtain ⟨⟨⟨⟨⟨hs2, hu2⟩, hh2⟩, hp02⟩, hp2⟩, hq2⟩ := hv
+  have reassoc : ∀ {l : Bytes}, (∀ x ∈ l, ((¬x = cSlash ∧ ¬x = cQ) ∧ ¬x = cHash) ∧ ¬x = cAt) →
+      ∀ x ∈ l, ¬x = cSlash ∧ ¬x = cQ ∧ ¬x = cHash ∧ ¬x = cAt :=
+    fun h x hx => ⟨(h x hx).1.1.1, (h x hx).1.1.2, (h x hx).1.2, (h x hx).2⟩
+  replace hu1 := reassoc hu1
+  replace hu2 := reassoc hu2
+  replace hh1 := reassoc hh1
+  replace hh2 := reassoc hh2
+  have sl1 := lower_of_isLower s1 (List.all_eq_true.mpr hs1)
+  have sl2 := lower_of_isLower s2 (List.all_eq_true.mpr hs2)
+  have hsn : ∀ (s : Bytes), (∀ x ∈ s, isLower x = true) → ∀ k, (k = cHash ∨ k = cColon ∨ k = cQ ∨ k = cAt ∨ k = cSlash) → k ∉ s := by
+    intro s hs k hk hm
+    have := hs k hm
+    simp only [isLower, Bool.and_eq_true, decide_eq_true_eq] at this
+    rcases hk with rfl | rfl | rfl | rfl | rfl <;> simp [cHash, cColon, cQ, cAt, cSlash] at this
+  obtain ⟨t1, rfl⟩ : ∃ t, p1 = cSlash :: t := by
+    cases p1 with
+    | nil => simp at hp01
+    | cons x xs => simp at hp01; exact ⟨xs, by rw [hp01]⟩
+  obtain ⟨t2, rfl⟩ : ∃ t, p2 = cSlash :: t := by
+    cases p2 with
+    | nil => simp at hp02
+    | cons x xs => simp at hp02; exact ⟨xs, by rw [hp02]⟩
+  unfold cacheKey at h
+  simp only [sl1, sl2] at h
+  -- membership of the separators in the parts
+  have nu : ∀ (us : Bytes), (∀ x ∈ us, ¬x = cSlash ∧ ¬x = cQ ∧ ¬x = cHash ∧ ¬x = cAt) → ∀ k, (k = cSlash ∨ k = cQ ∨ k = cHash ∨ k = cAt) → k ∉ us := by
+    intro us hus k hk hm
+    have := hus k hm
+    rcases hk with rfl | rfl | rfl | rfl
+    · exact this.1 rfl
+    · exact this.2.1 rfl
+    · exact this.2.2.1 rfl
+    · exact this.2.2.2 rfl
+  have hwf : ∀ (q : Bytes), (∀ x ∈ q, ¬x = cHash) → cHash ∉ (if q = [] then [] else cQ :: q) := by
+    intro q hq hm; split at hm
+    · simp at hm
+    · simp only [List.mem_cons] at hm; rcases hm with e | e
+      · simp [cHash, cQ] at e
+      · exact hq _ e rfl
+  have hU : ∀ (us : Bytes), (∀ x ∈ us, ¬x = cSlash ∧ ¬x = cQ ∧ ¬x = cHash ∧ ¬x = cAt) → ∀ k, (k = cSlash ∨ k = cQ ∨ k = cHash) →
+      k ∉ (if us = [] then [] else us ++ [cAt]) := by
+    intro us hus k hk hm; split at hm
+    · simp at hm
+    · simp only [List.mem_append, List.mem_singleton] at hm
+      rcases hm with e | e
+      · exact nu us hus k (by rcases hk with r | r | r <;> simp [r]) e
+      · rcases hk with rfl | rfl | rfl <;> simp [cSlash, cQ, cHash, cAt] at e
+  have hP : ∀ (t : Bytes), (∀ x ∈ cSlash :: t, ¬x = cQ ∧ ¬x = cHash) → ∀ k, (k = cQ ∨ k = cHash) → k ∉ cSlash :: t := by
+    intro t ht k hk hm
+    have := ht k hm
+    rcases hk with rfl | rfl
+    · exact this.1 rfl
+    · exact this.2 rfl
+  -- regroup: everything before the fragment, before the query, ...
+  let B1 := s1 ++ (cColon :: cSlash :: cSlash :: ((if u1 = [] then [] else u1 ++ [cAt]) ++ (h1 ++ (cSlash :: t1))))
+  let B2 := s2 ++ (cColon :: cSlash :: cSlash :: ((if u2 = [] then [] else u2 ++ [cAt]) ++ (h2 ++ (cSlash :: t2))))
+  have nB : ∀ k, (k = cQ ∨ k = cHash) → k ∉ B1 ∧ k ∉ B2 := by
+    intro k hk
+    have a1 := hsn s1 hs1 k (by rcases hk with r | r <;> simp [r])
+    have a2 := hsn s2 hs2 k (by rcases hk with r | r <;> simp [r])
+    have b1 := hU u1 hu1 k (by rcases hk with r | r <;> simp [r])
+    have b2 := hU u2 hu2 k (by rcases hk with r | r <;> simp [r])
+    have c1 := nu h1 hh1 k (by rcases hk with r | r <;> simp [r])
+    have c2 := nu h2 hh2 k (by rcases hk with r | r <;> simp [r])
+    have d1 := hP t1 hp1 k hk
+    have d2 := hP t2 hp2 k hk
+    have hk' : k ≠ cColon ∧ k ≠ cSlash := by rcases hk with rfl | rfl <;> simp [cQ, cHash, cColon, cSlash]
+    constructor
+    · simp only [B1, List.mem_append, List.mem_cons, not_or]
+      exact ⟨a1, hk'.1, hk'.2, hk'.2, b1, c1, by simpa [List.mem_cons, not_or] using d1⟩
+    · simp only [B2, List.mem_append, List.mem_cons, not_or]
+      exact ⟨a2, hk'.1, hk'.2, hk'.2, b2, c2, by simpa [List.mem_cons, not_or] using d2⟩
+  have e1 : s1 ++ (cColon :: cSlash :: cSlash :: ((if u1 = [] then [] else u1 ++ [cAt]) ++ (h1 ++ (cSlash :: t1 ++
+      ((if q1 = [] then [] else cQ :: q1) ++ (if f1 = [] then [] else cHash :: f1)))))) =
+      (B1 ++ (if q1 = [] then [] else cQ :: q1)) ++ (if f1 = [] then [] else cHash :: f1) := by simp [B1, List.append_assoc]
+  have e2 : s2 ++ (cColon :: cSlash :: cSlash :: ((if u2 = [] then [] else u2 ++ [cAt]) ++ (h2 ++ (cSlash :: t2 ++
+      ((if q2 = [] then [] else cQ :: q2) ++ (if f2 = [] then [] else cHash :: f2)))))) =
+      (B2 ++ (if q2 = [] then [] else cQ :: q2)) ++ (if f2 = [] then [] else cHash :: f2) := by simp [B2, List.append_assoc]
+  rw [e1, e2] at h
+  have nh1 : cHash ∉ B1 ++ (if q1 = [] then [] else cQ :: q1) := by
+    simp only [List.mem_append, not_or]; exact ⟨(nB cHash (Or.inr rfl)).1, hwf q1 hq1⟩
+  have nh2 : cHash ∉ B2 ++ (if q2 = [] then [] else cQ :: q2) := by
+    simp only [List.mem_append, not_or]; exact ⟨(nB cHash (Or.inr rfl)).2, hwf q2 hq2⟩
+  obtain ⟨hA, hf⟩ := opt_suffix_inj cHash h nh1 nh2
+  obtain ⟨hB, hq⟩ := opt_suffix_inj cQ hA (nB cQ (Or.inl rfl)).1 (nB cQ (Or.inl rfl)).2
+  -- scheme
+  obtain ⟨hs, hrest⟩ := sep_uniq cColon hB (hsn s1 hs1 _ (by simp)) (hsn s2 hs2 _ (by simp))
+  simp only [List.cons.injEq, true_and] at hrest
+  -- authority / path
+  have r1 : (if u1 = [] then [] else u1 ++ [cAt]) ++ (h1 ++ cSlash :: t1) = ((if u1 = [] then [] else u1 ++ [cAt]) ++ h1) ++ cSlash :: t1 := by simp
+  have r2 : (if u2 = [] then [] else u2 ++ [cAt]) ++ (h2 ++ cSlash :: t2) = ((if u2 = [] then [] else u2 ++ [cAt]) ++ h2) ++ cSlash :: t2 := by simp
+  rw [r1, r2] at hrest
+  have ns1 : cSlash ∉ (if u1 = [] then [] else u1 ++ [cAt]) ++ h1 := by
+    simp only [List.mem_append, not_or]; exact ⟨hU u1 hu1 _ (by simp), nu h1 hh1 _ (by simp)⟩
+  have ns2 : cSlash ∉ (if u2 = [] then [] else u2 ++ [cAt]) ++ h2 := by
+    simp only [List.mem_append, not_or]; exact ⟨hU u2 hu2 _ (by simp), nu h2 hh2 _ (by simp)⟩
+  obtain ⟨hauth, ht⟩ := sep_uniq cSlash hrest ns1 ns2
+  obtain ⟨huu, hhh⟩ := opt_prefix_inj cAt hauth (nu u1 hu1 _ (by simp)) (nu u2 hu2 _ (by simp)) (nu h1 hh1 _ (by simp)) (nu h2 hh2 _ (by simp))
+  subst hs huu hhh ht hq hf
+  rfl
 
 end Nuts.C18
